@@ -598,6 +598,12 @@ func (m *machine) call(x *gen.Expr, e *env) interface{} {
 			if v == nil || !tyOK(v, p.T) {
 				fail("argument %d of %s has the wrong type", i, x.S)
 			}
+			// calibrated (interpreter, evaluateFunctionCall): a float without a fractional part
+			// bound to an int parameter becomes an int (JSON numbers arrive as floats); later
+			// arithmetic on the parameter is integer arithmetic
+			if f, isF := v.(float64); isF && p.T == gen.TInt && f == float64(int64(f)) {
+				v = int64(f)
+			}
 			fe.vars[p.Name] = v
 		}
 		m.depth++
